@@ -794,7 +794,7 @@ def _split_method_chain(expr):
     return head, calls
 
 
-_ITER_METHODS = {'iter', 'into_iter', 'flat_map', 'map', 'copied', 'chain', 'cloned', 'filter', 'enumerate', 'zip'}
+_ITER_METHODS = {'iter', 'into_iter', 'flat_map', 'map', 'copied', 'chain', 'cloned', 'filter', 'enumerate', 'zip', 'flatten'}
 
 
 def _is_iter_expr(expr):
@@ -881,6 +881,10 @@ def _compile_seg(expr, sink, g):
         (name, arg), tail = rest[0], rest[1:]
         if name in ('copied', 'cloned'):
             return consume(f'(*{elem})' if kind == 'ref' else elem, 'val', tail)
+        if name == 'flatten':
+            # items that are themselves vectors (by reference): one more loop level over `item.iter()`
+            inner_sink = (lambda e, kd: consume(e, kd, tail)) if tail else sink
+            return _compile_seg(f'{elem}.iter()', inner_sink, g)
         pat, body = _closure(arg)
         b = _bind(pat, elem) if kind == 'ref' else (f'let {pat[1:].strip() if pat.startswith("&") else pat} = {elem};')
         if name == 'filter':
@@ -1642,3 +1646,50 @@ def unchecked_sub_filter(f):
     if n:
         f.rewrites.append(('R6', f'{n}x `a.checked_sub(b).filter(|&r| P)` -> match (P verbatim)', ''))
     return f
+
+
+def uniter_first(f):
+    """R6: `PIPELINE.next()` (first item of a pipeline) -> loop remembering the first item in an Option (closure bodies verbatim; usize items)"""
+    n = 0
+    g = _Gen()
+    while True:
+        m = None
+        for mm in re.finditer(r'\.\s*next\(\)', f.body):
+            st = _receiver_start(f.body, mm.start())
+            if st >= 0 and _is_iter_expr(f.body[st:mm.start()].strip()) and len(_split_method_chain(f.body[st:mm.start()].strip())[1]) > 1:
+                m = (mm, st)
+                break
+        if not m:
+            break
+        mm, st = m
+        acc = f'fst{n}_'
+
+        def sink(elem, kind, acc=acc):
+            x = ('*' + elem) if kind == 'ref' else elem
+            return f'if {acc}.is_none() {{ {acc} = Some({x}); }}'
+        code = _compile_iter(f.body[st:mm.start()].strip(), sink, g, None)
+        f.body = f.body[:st] + f'{{ let mut {acc}: Option<usize> = None; {code} {acc} }}' + f.body[mm.end():]
+        n += 1
+    if n:
+        f.rewrites.append(('R6', f'{n} iterator pipeline(s) `..next()` compiled to loops remembering the first item (closure bodies verbatim)', ''))
+    return f
+
+
+def pull_in_helpers(u, f, relpath, container, known, qual_prefix):
+    """methods of the same impl that `f` calls on `self` and the unit does not know yet (`known`): extracted verbatim, WITHOUT a contract
+    (their bodies are checked for safety only), so that a helper introduced next to a function under contract does not make the unit unbuildable"""
+    out, todo = [], [f]
+    seen = set(known)
+    while todo:
+        g = todo.pop()
+        for nm in re.findall(r'\bself\s*\.\s*(\w+)\s*\(', g.body):
+            if nm in seen:
+                continue
+            seen.add(nm)
+            try:
+                h = u.extract(relpath, container, nm, f'{qual_prefix}::{nm}[helper, no contract]')
+            except ExtractError:
+                continue
+            out.append(h)
+            todo.append(h)
+    return out
